@@ -103,16 +103,24 @@ def run(chk):
     handle_rejections(chk, rej1, ackcap, False, cov)
     handle_rejections(chk, rej2, ackcap, True, cov)
     handle_rejections(chk, rej3, 1, False, cov)
+    # the second instance of the same client: the real Datadog client over HTTP against a scripted intake (observer spec)
+    import random as _random
+    from checks import ddcommon as D
+    rnd = _random.Random(chk.seed + 5)
+    dscripts = D.stories() + [D.random_script("dd-rnd%d" % i, rnd) for i in range(1600 if thorough else 43)]
+    nd, ed, rejd = D.run_scripts(chk, dscripts, "c02")
+    D.handle(chk, rejd, "c02")
+    cov["datadog_client"] = {"traces": nd, "events": ed}
     kinds = kinds1 | kinds2 | kinds3
     total_kinds = sum(1 if k is None else len(v) for _, k, v in F.EVENT_KINDS)
     cov.update({
-        "traces_validated_against_impl": n1 + n2 + n3, "trace_events": e1 + e2 + e3,
+        "traces_validated_against_impl": n1 + n2 + n3 + nd, "trace_events": e1 + e2 + e3 + ed,
         "trace_validation_states": st1 + st2 + st3,
         "tlc_behaviours_replayed": nbeh, "scripts_run": len(scripts) + len(scripts_io) + len(sl),
         "evaluations": n1 + n2 + n3,
         "distinct_nontrivial": len({json.dumps({k: s[k] for k in ("dial", "send", "ack", "ping", "env", "maxDurMs", "inorder")}, sort_keys=True)
                                     for s in scripts + scripts_io if any(x != "ok" for x in s["dial"] + s["send"]) or any(x != "ack" for x in s["ack"]) or any(e["do"] != "feed" for e in s["env"])}),
-        "rule": "scripts = environment projection of TLC -simulate behaviours of Forwarder (sim cfg: 4 chunks, AckCap 2, 4 faults, 2 soft reconnects, stop, steal) plus seeded random fault scripts; non-trivial = at least one fault outcome, stop, steal or soft reconnect; distinct by script content",
+        "rule": "scripts = environment projection of TLC -simulate behaviours of Forwarder (sim cfg: 4 chunks, AckCap 2, 4 faults, 2 soft reconnects, stop, steal) plus seeded random fault scripts; non-trivial = at least one fault outcome, stop, steal or soft reconnect; distinct by script content; Datadog client (same client over an HTTP connection, Close a no-op, anonymous immediate acknowledgement): 5 stories + seeded scripts of 2-7 chunks against an intake answering 200/202/299/300/404/500/hang/reset per request, stop at 0-900 ms, observer DatadogTrace (confirm only after 2xx, resolved once, oldest first, bounded stop, everything confirmed once the intake recovers)",
         "event_kinds_seen": sorted(kinds), "event_kinds_total": total_kinds,
         "samples": [scripts[0], scripts[len(scripts) // 2], scripts_io[0]],
         "max_stop_to_finished_ms": max(stop1 + stop2 + stop3 + [0]),
